@@ -361,7 +361,8 @@ def run_incarnation(sc, broker, inc, t0, crash_at, pending_msgs):
         for _ in range(sc.get('drain_rounds', 60)):
             mark = len(rec.events)
             await asyncio.sleep(2 * sc['poll'] + sc.get('period', 6))
-            new = [e for e in rec.events[mark:] if e[2] in ('kafka_emit', 'commit_applied', 'commit_call', 'fn_end', 'ref')]
+            # a round in which a fault fired is not a quiet round: liveness is judged once faults have stopped
+            new = [e for e in rec.events[mark:] if e[2] in ('kafka_emit', 'commit_applied', 'commit_call', 'fn_end', 'ref', 'fault')]
             if not new:
                 break
         rec.rec('quiescent')
